@@ -25,6 +25,7 @@ type Op struct {
 	Keys []string `json:"keys,omitempty"` // GetMany / PutMany
 	Val  int      `json:"val,omitempty"`  // index into Values
 	Exp  int      `json:"exp,omitempty"`  // 0 none; k>0: now+(k-½) units; k<0: now-(|k|-½) units (already past)
+	Exps []int    `json:"exps,omitempty"` // PutMany: per-item expiry (overrides Exp when present)
 	Ver  string   `json:"ver,omitempty"`  // Cas/Wait version selector: cur stale bogus mine ; Put/PutMany/Create: caller-supplied Version field selector ("", cur, mine)
 	Pat  string   `json:"pat,omitempty"`  // List
 	N    int      `json:"n,omitempty"`    // Advance units
@@ -37,6 +38,9 @@ func (o Op) String() string {
 	case "Cas":
 		return fmt.Sprintf("Cas(%s,v%d,e%d,%s)", o.Key, o.Val, o.Exp, o.Ver)
 	case "PutMany":
+		if o.Exps != nil {
+			return fmt.Sprintf("PutMany(%v,v%d,e%v,ver=%s)", o.Keys, o.Val, o.Exps, o.Ver)
+		}
 		return fmt.Sprintf("PutMany(%v,v%d,e%d,ver=%s)", o.Keys, o.Val, o.Exp, o.Ver)
 	case "GetMany":
 		return fmt.Sprintf("GetMany(%v)", o.Keys)
@@ -462,17 +466,27 @@ func (m *Model) Step(o Op) (vio *Vio) {
 		return nil
 
 	case "PutMany":
-		has, half, at := m.expiry(o.Exp)
 		recs := make([]kvs.Record, len(o.Keys))
 		callers := make([]string, len(o.Keys))
+		type ex struct {
+			has  bool
+			half int64
+			at   *time.Time
+		}
+		exs := make([]ex, len(o.Keys))
 		for i, k := range o.Keys {
 			cv, ok := m.resolveVer(k, o.Ver)
 			if !ok {
 				cv = ""
 			}
 			callers[i] = cv
+			e := o.Exp
+			if i < len(o.Exps) {
+				e = o.Exps[i]
+			}
+			exs[i].has, exs[i].half, exs[i].at = m.expiry(e)
 			// value differs per position so that "last one wins" is observable for repeated keys
-			recs[i] = kvs.Record{Key: k, Value: Values[(o.Val+i)%len(Values)], Version: cv, ExpiresAt: at}
+			recs[i] = kvs.Record{Key: k, Value: Values[(o.Val+i)%len(Values)], Version: cv, ExpiresAt: exs[i].at}
 		}
 		err := m.be.S.PutMany(ctx, recs)
 		for _, cv := range callers {
@@ -484,7 +498,7 @@ func (m *Model) Step(o Op) (vio *Vio) {
 			return wrongErr(err, "nil")
 		}
 		for i, k := range o.Keys {
-			m.write(k, recs[i].Value, has, half, at, "", false, callers[i], "PutMany")
+			m.write(k, recs[i].Value, exs[i].has, exs[i].half, exs[i].at, "", false, callers[i], "PutMany")
 		}
 		return nil
 
